@@ -20,10 +20,11 @@ var allTypes = []string{"checkin", "batchconfig", "bcstarted", "eonstarted", "po
 
 // Job is one TLC enumeration run (EventsMC with these constants).
 type Job struct {
-	Name  string
-	Types []string
-	Cls   []string
-	Hs    []string
+	Name    string
+	Types   []string
+	Cls     []string
+	Hs      []string
+	Senders []string
 }
 
 func quoteSet(l []string) string {
@@ -37,14 +38,25 @@ func quoteSet(l []string) string {
 func jobs(thorough bool) []Job {
 	var out []Job
 	hs := []string{"Z0", "One", "MaxI64"}
+	senders := []string{"AZ", "AF", "K1", "K2", "K3"}
+	split := map[string]bool{"polyeval": true, "apology": true, "batchconfig": true}
 	for _, t := range allTypes {
-		if thorough {
+		switch {
+		case thorough && (t == "polyeval" || t == "apology"):
+			// runs are split so that the longest one stays short
 			for _, h := range hs {
-				out = append(out, Job{Name: t + "-" + h, Types: []string{t}, Cls: []string{"fid", "app"}, Hs: []string{h}})
+				for _, s := range senders {
+					out = append(out, Job{Name: t + "-" + h + "-" + s, Types: []string{t}, Cls: []string{"fid", "app"}, Hs: []string{h}, Senders: []string{s}})
+				}
 			}
-			out = append(out, Job{Name: t + "-mut", Types: []string{t}, Cls: []string{"mut"}, Hs: hs})
-		} else {
-			out = append(out, Job{Name: t, Types: []string{t}, Cls: []string{"fid", "mut", "app"}, Hs: hs})
+			out = append(out, Job{Name: t + "-mut", Types: []string{t}, Cls: []string{"mut"}, Hs: hs, Senders: senders})
+		case thorough || split[t]:
+			for _, h := range hs {
+				out = append(out, Job{Name: t + "-" + h, Types: []string{t}, Cls: []string{"fid", "app"}, Hs: []string{h}, Senders: senders})
+			}
+			out = append(out, Job{Name: t + "-mut", Types: []string{t}, Cls: []string{"mut"}, Hs: hs, Senders: senders})
+		default:
+			out = append(out, Job{Name: t, Types: []string{t}, Cls: []string{"fid", "mut", "app"}, Hs: hs, Senders: senders})
 		}
 	}
 	// largest first
@@ -76,9 +88,9 @@ type Gen struct {
 }
 
 func generate(c *core.Ctx, j Job) (*Gen, error) {
-	cfg := fmt.Sprintf("CONSTANTS\n  Tier = %q\n  RunTypes = %s\n  RunCls = %s\n  RunHs = %s\n"+
+	cfg := fmt.Sprintf("CONSTANTS\n  Tier = %q\n  RunTypes = %s\n  RunCls = %s\n  RunHs = %s\n  RunSenders = %s\n"+
 		"SPECIFICATION Spec\nINVARIANT EmitInv\nINVARIANT LeadInv\nCHECK_DEADLOCK FALSE\n",
-		c.Tier, quoteSet(j.Types), quoteSet(j.Cls), quoteSet(j.Hs))
+		c.Tier, quoteSet(j.Types), quoteSet(j.Cls), quoteSet(j.Hs), quoteSet(j.Senders))
 	res, err := tlc.Run(tlc.Opts{
 		Module: mcModule, CfgText: cfg, Workers: 2, Timeout: 30 * time.Minute, HeapGB: 4,
 		Files: map[string][]byte{mcModule + ".tla": mcBody},
@@ -201,10 +213,11 @@ type Outcome struct {
 	Samples   []any
 	AppRan    int // app scenarios in which every transaction was accepted
 	AppEvents int
+	Exemplar  map[string]Line // one recorded line per class, for the binding self-test
 }
 
 func newOutcome() *Outcome {
-	return &Outcome{ByCls: map[string]int{}, ByType: map[string]int{}, OutRes: map[string]int{}, Distinct: map[[32]byte]bool{}}
+	return &Outcome{ByCls: map[string]int{}, ByType: map[string]int{}, OutRes: map[string]int{}, Distinct: map[[32]byte]bool{}, Exemplar: map[string]Line{}}
 }
 
 func (o *Outcome) merge(p *Outcome) {
@@ -233,6 +246,59 @@ func (o *Outcome) merge(p *Outcome) {
 	}
 	o.AppRan += p.AppRan
 	o.AppEvents += p.AppEvents
+	for k, l := range p.Exemplar {
+		if _, ok := o.Exemplar[k]; !ok {
+			o.Exemplar[k] = l
+		}
+	}
+}
+
+// selfTest shows that the trace specification binds: three recorded lines are corrupted in one
+// logged field each and TLC must reject exactly those with the expected monitor.
+func selfTest(o *Outcome, sem chan struct{}) error {
+	fid, ok1 := o.Exemplar["fid"]
+	mut, ok2 := o.Exemplar["mut"]
+	app, ok3 := o.Exemplar["app"]
+	if !ok1 || !ok2 || !ok3 {
+		return fmt.Errorf("no exemplar lines for the binding self-test")
+	}
+	good := []Line{fid, mut, app}
+	fid.Out.V.H = "Z0"
+	if fid.V.H == "Z0" {
+		fid.Out.V.H = "One"
+	}
+	mut.Out = okR(mut.V) // the decoder "accepted" malformed data
+	mut.Out2, mut.Seen = mut.Out, mut.Out
+	app.Evs = append([]R{}, app.Evs[:len(app.Evs)-1]...)
+	var buf bytes.Buffer
+	for _, l := range append(good, fid, mut, app) {
+		buf.WriteString(Canon(l))
+		buf.WriteByte('\n')
+	}
+	sem <- struct{}{}
+	vr, err := validate(buf.Bytes())
+	<-sem
+	if err != nil {
+		return err
+	}
+	got := map[string]bool{}
+	for _, v := range vr.Viol {
+		if len(v) == 2 {
+			got[fmt.Sprintf("%v %v", v[0], v[1])] = true
+		}
+	}
+	want := []string{"4 C14_Fidelity", "5 C14_MalformedAccepted", "6 C14_AppFidelity"}
+	for _, w := range want {
+		if !got[w] {
+			return fmt.Errorf("binding self-test: corrupted line not rejected (%s missing in %v)", w, vr.Viol)
+		}
+	}
+	for k := range got {
+		if strings.HasPrefix(k, "1 ") || strings.HasPrefix(k, "2 ") || strings.HasPrefix(k, "3 ") {
+			return fmt.Errorf("binding self-test: uncorrupted line rejected: %s", k)
+		}
+	}
+	return nil
 }
 
 const chunkLines = 3000
@@ -257,6 +323,14 @@ func execute(u *Universe, cases []Case, saltBase int, salts []int, sem chan stru
 		out.ByCls[cs.Cls]++
 		out.ByType[cs.V.Type]++
 		out.Distinct[sha256.Sum256([]byte(Canon(cs)))] = true
+		switch {
+		case cs.Cls == "fid" && l.Out.Res == "ok":
+			out.Exemplar["fid"] = l
+		case cs.Cls == "mut" && l.Out.Res == "err" && len(cs.D) == 1 && cs.D[0].Kind == "drop":
+			out.Exemplar["mut"] = l
+		case cs.Cls == "app" && len(l.Evs) > 1:
+			out.Exemplar["app"] = l
+		}
 		switch cs.Cls {
 		case "app":
 			ok := l.Panic == ""
@@ -389,6 +463,30 @@ func report(c *core.Ctx, findings []Finding, known []core.Finding, knownHits map
 	return len(fresh)
 }
 
+// short is a compact rendering of a value record for messages.
+func (v V) short() string {
+	p := []string{}
+	add := func(k, x string) {
+		if x != None {
+			p = append(p, k+"="+x)
+		}
+	}
+	add("h", v.H)
+	add("s", v.S)
+	add("eon", v.Eon)
+	add("act", v.Act)
+	add("thr", v.Thr)
+	add("idx", v.Idx)
+	add("key", v.Key)
+	if len(v.As) > 0 || v.Type == "batchconfig" || v.Type == "polyeval" || v.Type == "accusation" || v.Type == "apology" {
+		p = append(p, fmt.Sprintf("as=%v", v.As))
+	}
+	if len(v.Items) > 0 || v.Type == "polycommit" || v.Type == "polyeval" || v.Type == "apology" {
+		p = append(p, fmt.Sprintf("items=%v", v.Items))
+	}
+	return v.Type + "{" + strings.Join(p, " ") + "}"
+}
+
 func clip(s string, n int) string {
 	if len(s) > n {
 		return s[:n] + "..."
@@ -399,7 +497,26 @@ func clip(s string, n int) string {
 // describe renders the concrete side of a line for the verdict message.
 func describe(l Line) string {
 	if l.Cls == "app" {
-		return clip(fmt.Sprintf("scenario steps=%s expected=%s observed=%s codes=%v panic=%q %s", Canon(l.Scen.Steps), Canon(l.Scen.Expect), Canon(l.Evs), l.Codes, l.Panic, l.Note), 2500)
+		steps, exp, obs := []string{}, []string{}, []string{}
+		for _, st := range l.Scen.Steps {
+			if st.Op == "begin" || st.Op == "end" {
+				steps = append(steps, st.Op)
+			} else {
+				steps = append(steps, fmt.Sprintf("%s by %s %s", st.Op, st.S, st.V.short()))
+			}
+		}
+		for _, v := range l.Scen.Expect {
+			exp = append(exp, v.short())
+		}
+		for _, r := range l.Evs {
+			if r.Res == "ok" {
+				obs = append(obs, r.V.short())
+			} else {
+				obs = append(obs, "<"+r.Res+">")
+			}
+		}
+		return clip(fmt.Sprintf("real app.ShutterApp, genesis keypers %v, first eon %s, block 1: %s; events expected: %s; events decoded by MakeEvent: %s; DeliverTx codes %v; panic=%q %s",
+			l.Scen.Keypers, l.Scen.Eon, strings.Join(steps, ", "), strings.Join(exp, " "), strings.Join(obs, " "), l.Codes, l.Panic, l.Note), 2500)
 	}
 	s := ""
 	if l.Real != nil {
@@ -411,16 +528,22 @@ func describe(l Line) string {
 	}
 	s += fmt.Sprintf("height=%s; MakeEvent returned %s", l.V.H, l.Out.Res)
 	if l.Out.Res == "ok" {
-		s += " " + Canon(l.Out.V)
+		s += " " + l.Out.V.short()
 	}
 	if l.Cls == "fid" {
-		s += "; value put in: " + Canon(l.V)
+		s += "; value put in: " + l.V.short()
+	}
+	sh := func(r R) string {
+		if r.Res == "ok" {
+			return r.V.short()
+		}
+		return "<" + r.Res + ">"
 	}
 	if l.Out2.Res != "skip" && Canon(l.Out2) != Canon(l.Out) {
-		s += "; re-encoded and decoded again: " + Canon(l.Out2)
+		s += "; re-encoded and decoded again: " + sh(l.Out2)
 	}
 	if Canon(l.Seen) != Canon(l.Out) {
-		s += "; smobserver.makeEvents passed on: " + Canon(l.Seen)
+		s += "; smobserver.makeEvents passed on: " + sh(l.Seen)
 	}
 	if l.Note != "" {
 		s += "; " + l.Note
@@ -532,6 +655,11 @@ func Check(c *core.Ctx) int {
 	}
 
 	violations := report(c, total.Findings, known, knownHits)
+	if violations == 0 {
+		if err := selfTest(total, sem); err != nil {
+			return inconclusive("%v", err)
+		}
+	}
 
 	// leads of the exhaustive check that the real code did not reproduce: the spec is wrong
 	mismatch := 0
